@@ -3232,7 +3232,11 @@ void Analyser::AnalyserImpl::analyseModel(const ModelPtr &model)
         if (type == AnalyserEquation::Type::EXTERNAL) {
             for (const auto &unknownVariable : internalEquation->mUnknownVariables) {
                 for (const auto &dependency : unknownVariable->mDependencies) {
-                    variableDependencies.push_back(dependency);
+                    // Note: the primary variable of an equivalence class may
+                    //       have changed since the dependency was recorded, so
+                    //       retrieve it again.
+
+                    variableDependencies.push_back(Analyser::AnalyserImpl::internalVariable(dependency)->mVariable);
                 }
             }
         } else {
